@@ -85,6 +85,10 @@ def veq(a,b):
             if a.var!=b.var: return z3.BoolVal(False)
             return z3.And(*[veq(x,y) for x,y in zip(a.f,b.f)]) if a.f else z3.BoolVal(True)
         return enum_idx(a)==enum_idx(b)
+    if isinstance(a,Str) or (isinstance(a,PyObj) and a.kind=='string'):
+        if len(a.b)!=len(b.b): return z3.BoolVal(False)
+        if any(is_num(x) for x in a.b+b.b): raise Unsupported('equality of texts with NUM segments')
+        return z3.And(*[x.z()==y.z() for x,y in zip(a.b,b.b)]) if a.b else z3.BoolVal(True)
     if isinstance(a,(Agg,Arr)):
         fa=a.f if isinstance(a,Agg) else a.items; fb=b.f if isinstance(b,Agg) else b.items
         return z3.And(*[veq(x,y) for x,y in zip(fa,fb)]) if fa else z3.BoolVal(True)
@@ -753,6 +757,25 @@ class AllNF(Native):
             x=s.items[s.i]; s.i+=1
             f=M.by_closure[re.search(r'\{closure@([^}]*)\}',s.clo.name).group(1)]
             s.state='wait'; return ('call',f,[Ref(Cell('clo',s.clo),[]),x])
+class ResolvePresenceNF(Native):
+    """iterate a map whose slots have symbolic presence: fork on each such slot (present / absent), then yield the present ones"""
+    def __init__(s,mp,mk): s.mp=mp; s.k=0; s.mk=mk; s.asked=False
+    def step(s,M,st):
+        while s.k<len(s.mp.slots):
+            sl=s.mp.slots[s.k]
+            if sl[2] is True or sl[2] is False: s.k+=1; continue
+            if not s.asked: s.asked=True; return ('branch',sl[2])
+            sl[2]=bool(s.taken); s.asked=False; s.k+=1
+        return ('ret',s.mk(s.mp))
+class SeqCallNF(Native):
+    """call a closure on each argument tuple in turn, then hand the list of results to `done(results, M, st)` -> value"""
+    def __init__(s,clo,arglists,done,fn=None): s.clo=clo; s.args=arglists; s.i=0; s.res=[]; s.done=done; s.waiting=False; s.fn=fn
+    def step(s,M,st):
+        if s.waiting: s.res.append(s.pending); s.waiting=False
+        if s.i>=len(s.args): return ('ret',s.done(s.res,M,st))
+        a=s.args[s.i]; s.i+=1; s.waiting=True
+        f=s.fn or M.by_closure[re.search(r'\{closure@([^}]*)\}',s.clo.name).group(1)]
+        return ('call',f,[Ref(Cell('clo',s.clo),[])]+list(a))
 class FilterAllNF(Native):
     """iter.filter(p).all(q) / .any(q): for each item, p(item) (forks if symbolic); kept items go through q with short-circuit"""
     any=False
@@ -914,6 +937,15 @@ def call_model(M,st,fr,callee,args):
             x,y=a.z(),b.z()
             o=Enum('Ordering',z3.If(x<y,z3.BitVecVal(0,8),z3.If(x==y,z3.BitVecVal(1,8),z3.BitVecVal(2,8))),[])
         return some(o) if 'partial' in c else o
+    if c=='f32::<impl f32>::round': return Flt(z3.fpRoundToIntegral(z3.RNA(),args[0].v))
+    if c=='f32::<impl f32>::trunc': return Flt(z3.fpRoundToIntegral(z3.RTZ(),args[0].v))
+    if c=='f32::<impl f32>::abs': return Flt(z3.fpAbs(args[0].v))
+    if c in('f32::<impl f32>::min','f32::<impl f32>::max'):
+        a_,b_=args[0].v,args[1].v
+        return Flt(z3.fpMin(a_,b_) if c.endswith('min') else z3.fpMax(a_,b_))
+    if c=='f32::<impl f32>::clamp':
+        x_,lo_,hi_=args[0].v,args[1].v,args[2].v
+        return Flt(z3.If(z3.fpLT(x_,lo_),lo_,z3.If(z3.fpGT(x_,hi_),hi_,x_)))
     if c=='f32::<impl f32>::sqrt': return Flt(z3.fpSqrt(RNE,args[0].v))
     if c=='f32::<impl f32>::floor': return Flt(z3.fpRoundToIntegral(z3.RTN(),args[0].v))
     if c=='f32::<impl f32>::ceil': return Flt(z3.fpRoundToIntegral(z3.RTP(),args[0].v))
@@ -943,8 +975,9 @@ def call_model(M,st,fr,callee,args):
     m=re.match(r'^<&HashMap<.*> as IntoIterator>::into_iter$',c) or re.match(r'^HashMap::<.*>::iter$',c)
     if m:
         mp=deref(args[0])
-        if any(sl[2] is not True and sl[2] is not False for sl in mp.slots): raise Unsupported('iterate map with symbolic presence')
-        return PyObj('iter',src='list',items=[Agg('',[Ref(Cell('mapkey',sl[0]),[]),Ref(Cell('mapval',sl[1]),[])]) for sl in mp.slots if sl[2] is True],pos=0)
+        mk=lambda mp_: PyObj('iter',src='list',items=[Agg('',[Ref(Cell('mapkey',sl[0]),[]),Ref(Cell('mapval',sl[1]),[])]) for sl in mp_.slots if sl[2] is True],pos=0)
+        if any(sl[2] is not True and sl[2] is not False for sl in mp.slots): return ResolvePresenceNF(mp,mk)
+        return mk(mp)
     if re.match(r'^<std::collections::hash_map::Iter<.*> as Iterator>::next$',c):
         it=deref(args[0])
         if it.pos<len(it.items): it.pos+=1; return some(it.items[it.pos-1])
@@ -962,6 +995,57 @@ def call_model(M,st,fr,callee,args):
         v=deref(args[0])
         if v.kind=='symvec': return v.length
         return Int(len(v.items),64)
+    m=re.match(r'^Vec::<.*>::(clear|pop|truncate|insert|remove|swap_remove)$',c)
+    if m:
+        v=deref(args[0]); meth=m.group(1)
+        if v.kind=='symvec': raise Unsupported('mutation of a symbolic-length vector')
+        if meth=='clear': v.items.clear(); return Unit()
+        if meth=='pop': return some(v.items.pop()) if v.items else NONE()
+        ix=args[1]
+        if not ix.conc(): raise Unsupported('Vec::'+meth+' at a symbolic index')
+        if meth=='truncate': del v.items[ix.v:]; return Unit()
+        if meth=='insert':
+            if ix.v>len(v.items): raise Panic('insertion index out of bounds')
+            v.items.insert(ix.v,args[2]); return Unit()
+        if ix.v>=len(v.items): raise Panic('removal index out of bounds')
+        if meth=='remove': return v.items.pop(ix.v)
+        x=v.items[ix.v]; v.items[ix.v]=v.items[-1]; v.items.pop(); return x
+    m=re.match(r'^Vec::<.*>::retain::<',c)
+    if m:
+        v=deref(args[0]); its=list(v.items)
+        def done(res,M_,st_,v=v,its=its):
+            if not all(r.conc() for r in res): raise Unsupported('Vec::retain with a symbolic predicate')
+            v.items[:]=[x for x,r in zip(its,res) if r.v]; return Unit()
+        cells=[Cell('el',x) for x in its]
+        return SeqCallNF(args[1],[[Ref(cl,[])] for cl in cells],done)
+    m=re.match(r'^core::slice::<impl \[.*\]>::(first|last|len|is_empty|get)$',c)
+    if m:
+        r=args[0]; v=deref(r); it=items(v); meth=m.group(1)
+        base=r
+        while isinstance(getp(base.cell,base.path),Ref): base=getp(base.cell,base.path)
+        if meth=='len': return Int(len(it),64)
+        if meth=='is_empty': return Bool(len(it)==0)
+        if meth=='first': return some(Ref(base.cell,list(base.path)+[('i',Int(0,64))])) if it else NONE()
+        if meth=='last': return some(Ref(base.cell,list(base.path)+[('i',Int(len(it)-1,64))])) if it else NONE()
+        if meth=='get':
+            ix=args[1]
+            if not ix.conc(): raise Unsupported('slice::get at a symbolic index')
+            return some(Ref(base.cell,list(base.path)+[('i',ix)])) if ix.v<len(it) else NONE()
+    m=re.match(r'^<(.*) as Iterator>::(rev|count|cloned|copied|skip|take)(::<.*>)?$',c)
+    if m and isinstance(args[0],PyObj) and args[0].kind in('iter','vec') and getattr(args[0],'src','list')=='list':
+        it=args[0]; its=list(it.items[getattr(it,'pos',0):]); meth=m.group(2)
+        if meth=='rev': return PyObj('iter',src='list',items=its[::-1],pos=0)
+        if meth=='count': return Int(len(its),64)
+        if meth in('cloned','copied'): return PyObj('iter',src='list',items=[cp(deref(x)) for x in its],pos=0)
+        k=args[1]
+        if not k.conc(): raise Unsupported('skip/take with a symbolic count')
+        return PyObj('iter',src='list',items=its[k.v:] if meth=='skip' else its[:k.v],pos=0)
+    m=re.match(r'^<(Rev|Cloned|Copied|Skip|Take)<.*> as (Iterator>::next|IntoIterator>::into_iter)$',c)
+    if m:
+        if c.endswith('into_iter'): return args[0]
+        it=deref(args[0])
+        if it.pos<len(it.items): it.pos+=1; return some(it.items[it.pos-1])
+        return NONE()
     if re.match(r'^Vec::<.*>::is_empty$',c):
         v=deref(args[0])
         if v.kind=='symvec': return mkbool(v.length.z()==0)
@@ -1019,10 +1103,82 @@ def call_model(M,st,fr,callee,args):
             if p is True: hit[2]=False; return some(hit[1])
             old=hit[2]; hit[2]=False; return Forks([(old,some(hit[1])),(z3.Not(old),NONE())])
     if re.match(r'^<HashMap<.*> as Clone>::clone$',c): return copy.deepcopy(deref(args[0]))
+    m=re.match(r'^HashMap::<.*>::retain::<',c)
+    if m:
+        mp=deref(args[0]); live=[sl for sl in mp.slots if sl[2] is not False]
+        cells=[Cell('mapval',sl[1]) for sl in live]
+        def done(res,M_,st_,live=live,cells=cells):
+            for sl,cell,keep in zip(live,cells,res):
+                sl[1]=cell.v
+                if keep.conc():
+                    if not keep.v: sl[2]=False
+                else:
+                    sl[2]=z3.simplify(z3.And(sl[2],keep.z())) if sl[2] is not True else keep.z()
+            return Unit()
+        return SeqCallNF(args[1],[[Ref(Cell('mapkey',sl[0]),[]),Ref(cell,[])] for sl,cell in zip(live,cells)],done)
+    m=re.match(r'^(HashMap|HashSet)::<.*>::(len|is_empty)$',c)
+    if m:
+        o=deref(args[0]); its=o.slots if m.group(1)=='HashMap' else [[x,None,True] for x in o.items]
+        if any(sl[2] is not True and sl[2] is not False for sl in its): raise Unsupported('len of a map with symbolic presence')
+        n=sum(1 for sl in its if sl[2] is True)
+        return Int(n,64) if m.group(2)=='len' else Bool(n==0)
+    m=re.match(r'^HashMap::<.*>::(keys|values)$',c)
+    if m:
+        mp=deref(args[0])
+        if any(sl[2] is not True and sl[2] is not False for sl in mp.slots): raise Unsupported('iterate map with symbolic presence')
+        k=0 if m.group(1)=='keys' else 1
+        return PyObj('iter',src='list',items=[Ref(Cell('mapkv',sl[k]),[]) for sl in mp.slots if sl[2] is True],pos=0)
+    if re.match(r'^<std::collections::hash_map::(Keys|Values)<.*> as Iterator>::next$',c):
+        it=deref(args[0])
+        if it.pos<len(it.items): it.pos+=1; return some(it.items[it.pos-1])
+        return NONE()
+    m=re.match(r'^HashMap::<.*>::get_mut(::<.*>)?$',c)
+    if m:
+        mp=deref(args[0]); key=deref(args[1])
+        for sl in mp.slots:
+            if repr(sl[0])==repr(key) and sl[2] is not False:
+                if sl[2] is not True: raise Unsupported('get_mut on a slot with symbolic presence')
+                cellv=Cell('mapval',sl[1]); sl[1]=None; sl.append(cellv)   # value now lives in the cell
+                raise Unsupported('HashMap::get_mut is not modelled (aliasing of the stored value)')
+        return NONE()
+    m=re.match(r'^Option::<.*>::(map|and_then|unwrap_or_else|map_or|filter)::<',c)
+    if m:
+        meth=m.group(1); e=args[0]
+        clo=args[-1]; f_=M.by_closure.get(re.search(r'\{closure@([^}]*)\}',clo.name).group(1)) if isinstance(clo,Agg) and '{closure@' in clo.name else None
+        if f_ is None: raise Unsupported('Option::'+meth+' with a non-closure argument')
+        cell=Cell('clo',clo)
+        if meth=='map': return NONE() if e.var=='None' else Redirect(f_,[Ref(cell,[]),e.f[0]],lambda r: some(r))
+        if meth=='and_then': return NONE() if e.var=='None' else Redirect(f_,[Ref(cell,[]),e.f[0]])
+        if meth=='unwrap_or_else': return e.f[0] if e.var=='Some' else Redirect(f_,[Ref(cell,[])])
+        if meth=='map_or': return args[1] if e.var=='None' else Redirect(f_,[Ref(cell,[]),e.f[0]])
+        if meth=='filter':
+            if e.var=='None': return NONE()
+            raise Unsupported('Option::filter')
+    m=re.match(r'^Option::<.*>::(copied|cloned)$',c)
+    if m:
+        e=args[0]; return NONE() if e.var=='None' else some(cp(deref(e.f[0])))
+    m=re.match(r'^Option::<.*>::(expect|unwrap_or_default|ok_or)(::<.*>)?$',c)
+    if m:
+        e=args[0]; meth=m.group(1)
+        if meth=='expect':
+            if e.var in('Some','Ok'): return e.f[0]
+            raise Panic('expect on '+e.var)
+        if meth=='ok_or': return ok(e.f[0]) if e.var=='Some' else err(args[1])
+    m=re.match(r'^Result::<.*>::(ok|is_err|expect|unwrap_or)(::<.*>)?$',c)
+    if m:
+        e=args[0] if not isinstance(args[0],Ref) else deref_once(args[0]); meth=m.group(1)
+        if meth=='ok': return some(e.f[0]) if e.var=='Ok' else NONE()
+        if meth=='is_err': return Bool(e.var=='Err')
+        if meth=='unwrap_or': return e.f[0] if e.var=='Ok' else args[1]
+        if meth=='expect':
+            if e.var=='Ok': return e.f[0]
+            raise Panic('expect on Err')
+    m=re.match(r'^Vec::<.*>::(is_empty|clear|pop|contains|first|last|truncate|insert|remove|extend_from_slice)$',c) if False else None
     if re.match(r'^<HashMap<.*> as IntoIterator>::into_iter$',c):
         mp=args[0]
-        if any(sl[2] is not True and sl[2] is not False for sl in mp.slots): raise Unsupported('iterate map with symbolic presence')
-        return PyObj('iter',src='list',items=[Agg('',[sl[0],sl[1]]) for sl in mp.slots if sl[2] is True],pos=0)
+        mk=lambda mp_: PyObj('iter',src='list',items=[Agg('',[sl[0],sl[1]]) for sl in mp_.slots if sl[2] is True],pos=0)
+        if any(sl[2] is not True and sl[2] is not False for sl in mp.slots): return ResolvePresenceNF(mp,mk)
+        return mk(mp)
     if re.match(r'^<std::collections::hash_map::IntoIter<.*> as Iterator>::next$',c):
         it=deref(args[0])
         if it.pos<len(it.items): it.pos+=1; return some(it.items[it.pos-1])
@@ -1031,12 +1187,58 @@ def call_model(M,st,fr,callee,args):
     if m:
         if args[0].var=='None': return Bool(False)
         return Redirect(M.by_closure[m.group(1)],[args[1],args[0].f[0]])
-    m=re.match(r'^<(std::vec::IntoIter<.*>|std::slice::Iter<.*>) as Iterator>::(all|any)::<',c)
-    if m:
+    m=re.match(r'^<(.*) as Iterator>::(all|any)::<',c)
+    if m and not m.group(1).startswith('Filter<') and isinstance(deref(args[0]),PyObj) and deref(args[0]).kind=='iter' and deref(args[0]).src=='list':
         it=deref(args[0]); nf=AllNF(list(it.items[it.pos:]),args[1]); nf.any=(m.group(2)=='any'); it.pos=len(it.items); return nf
+    m=re.match(r'^<(.*) as Iterator>::position::<',c)
+    if m and isinstance(deref(args[0]),PyObj) and deref(args[0]).kind=='iter' and deref(args[0]).src=='list':
+        it=deref(args[0]); its=list(it.items[it.pos:]); it.pos=len(it.items)
+        class _Pos(Native):
+            def __init__(s): s.i=0; s.state='idle'
+            def step(s,M_,st_):
+                while True:
+                    if s.state=='wait':
+                        r=s.pending; s.state='idle'
+                        if r.conc():
+                            if r.v: return ('ret',some(Int(s.i-1,64)))
+                        else:
+                            s.state='br'; return ('branch',r.v)
+                    elif s.state=='br':
+                        s.state='idle'
+                        if s.taken: return ('ret',some(Int(s.i-1,64)))
+                    if s.i>=len(its): return ('ret',NONE())
+                    x=its[s.i]; s.i+=1; s.state='wait'
+                    f_=M_.by_closure[re.search(r'\{closure@([^}]*)\}',args[1].name).group(1)]
+                    return ('call',f_,[Ref(Cell('clo',args[1]),[]),x])
+        return _Pos()
+    m=re.match(r'^<(.*) as Iterator>::zip::<',c)
+    if m:
+        a_,b_=args[0],args[1]
+        la=list(a_.items[getattr(a_,'pos',0):]); lb=list(b_.items[getattr(b_,'pos',0):])
+        if getattr(a_,'src','list')!='list' or getattr(b_,'src','list')!='list': raise Unsupported('zip of adaptor iterators')
+        return PyObj('iter',src='list',items=[Agg('',[x,y]) for x,y in zip(la,lb)],pos=0)
+    if re.match(r'^<Zip<.*> as Iterator>::next$',c) or re.match(r'^<std::array::IntoIter<.*> as Iterator>::next$',c):
+        it=deref(args[0])
+        if it.pos<len(it.items): it.pos+=1; return some(it.items[it.pos-1])
+        return NONE()
+    if re.match(r'^<Zip<.*> as IntoIterator>::into_iter$',c) or re.match(r'^<std::array::IntoIter<.*> as IntoIterator>::into_iter$',c): return args[0]
+    m=re.match(r'^<\[(.*); (\d+)\] as IntoIterator>::into_iter$',c)
+    if m: return PyObj('iter',src='list',items=list(args[0].items),pos=0)
     if c in('<&f32 as PartialEq>::eq','<&f32 as PartialEq>::ne','<f32 as PartialEq>::eq'):
         a,b=deref(args[0]),deref(args[1]); r=z3.fpEQ(a.v,b.v); return mkbool(r if c.endswith('eq') else z3.Not(r))
     if re.match(r'^<Vec<.*> as (Deref|DerefMut)>::(deref|deref_mut)$',c): return args[0]
+    m=re.match(r'^<&(mut )?Vec<.*> as IntoIterator>::into_iter$',c) or re.match(r'^<&(mut )?\[.*\] as IntoIterator>::into_iter$',c)
+    if m:
+        r=args[0]; v=deref(r)
+        if isinstance(v,PyObj) and v.kind=='symvec': raise Unsupported('iteration over a symbolic-length vector')
+        base=r
+        while isinstance(getp(base.cell,base.path),Ref): base=getp(base.cell,base.path)
+        return PyObj('iter',src='list',items=[Ref(base.cell,list(base.path)+[('i',Int(k,64))]) for k in range(len(items(v)))],pos=0)
+    if re.match(r'^<std::slice::(Iter|IterMut)<.*> as Iterator>::next$',c):
+        it=deref(args[0])
+        if it.pos<len(it.items): it.pos+=1; return some(it.items[it.pos-1])
+        return NONE()
+    if re.match(r'^<std::slice::(Iter|IterMut)<.*> as IntoIterator>::into_iter$',c): return args[0]
     m=re.match(r'^core::slice::<impl \[.*\]>::(iter|iter_mut)$',c)
     if m:
         r=args[0]; v=deref(r); n=len(items(v))
@@ -1092,10 +1294,11 @@ def call_model(M,st,fr,callee,args):
     if re.match(r'^core::slice::<impl \[.*\]>::contains$',c):
         v=deref(args[0]); x=deref(args[1]); it=items(v)
         return mkbool(z3.Or(*[veq(e,x) for e in it])) if it else Bool(False)
-    m=re.match(r'^HashSet::<.*>::(insert|contains|clear|with_capacity_and_hasher)(::<.*>)?$',c)
+    m=re.match(r'^HashSet::<.*>::(insert|contains|clear|with_capacity_and_hasher|new|with_capacity|with_hasher|remove)(::<.*>)?$',c)
     if m:
         meth=m.group(1)
-        if meth=='with_capacity_and_hasher': return PyObj('set',items=[])
+        if meth in('with_capacity_and_hasher','new','with_capacity','with_hasher'): return PyObj('set',items=[])
+        if meth=='remove': raise Unsupported('HashSet::remove')
         st_=deref(args[0])
         if meth=='clear': st_.items.clear(); return Unit()
         x=deref(args[1])
